@@ -177,11 +177,13 @@ Definition do_client_append (l p : N) (s : state) : state :=
       ((log x ++ [(cur x, p)]) :: created s)
       (acked s) (committed s).
 
-(* the leader sends the k entries after prevIdx = pi *)
-Definition do_send_append (l : N) (pi k : nat) (s : state) : state :=
+(* the leader sends the k entries after prevIdx = pi, announcing commit index c
+   (its own, or an older one: the replication thread works on a snapshot of the
+   leader's state that may lag behind) *)
+Definition do_send_append (l : N) (pi k c : nat) (s : state) : state :=
   let x := st s l in
   mkS (st s) (grants s)
-      (mkReq (cur x) l pi (term_at (log x) pi) (firstn k (skipn pi (log x))) (commit x) :: appends s)
+      (mkReq (cur x) l pi (term_at (log x) pi) (firstn k (skipn pi (log x))) c :: appends s)
       (acks s) (votes s) (started s) (elected s) (created s) (acked s) (committed s).
 
 (* successful AppendEntries at f: term adopted, entries merged, flush if the log
@@ -248,6 +250,13 @@ Definition do_crash (n : N) (s : state) : state :=
       (grants s) (appends s) (acks s) (votes s) (started s) (elected s) (created s)
       (acked s) (committed s).
 
+(* a node makes more of its log durable (segment roll-over, explicit flush) *)
+Definition do_flush (n : N) (k : nat) (s : state) : state :=
+  let x := st s n in
+  mkS (upd (st s) n (mkN (cur x) (vote x) (role x) (got x) (log x) k (commit x) (matchIdx x)))
+      (grants s) (appends s) (acks s) (votes s) (started s) (elected s) (created s)
+      (acked s) (committed s).
+
 Definition do_lose_grant (g : vrec) (s : state) : state :=
   mkS (st s) (remove1 veqb g (grants s)) (appends s) (acks s) (votes s) (started s)
       (elected s) (created s) (acked s) (committed s).
@@ -300,10 +309,11 @@ Inductive step (s : state) : state -> Prop :=
 | SClientAppend : forall l p,
     role (st s l) = Leader ->
     step s (do_client_append l p s)
-| SSendAppend : forall l pi k,
+| SSendAppend : forall l pi k c,
     role (st s l) = Leader ->
     (pi <= length (log (st s l)))%nat ->
-    step s (do_send_append l pi k s)
+    (c <= commit (st s l))%nat ->
+    step s (do_send_append l pi k c s)
 | SRecvAppend : forall f m,
     In m (appends s) ->
     f <> rldr m ->
@@ -331,7 +341,10 @@ Inductive step (s : state) : state -> Prop :=
     incl l' (appends s) ->
     step s (do_net_appends l' s)
 | SDropAck : forall a,
-    step s (do_drop_ack a s).
+    step s (do_drop_ack a s)
+| SFlush : forall n k,
+    (flushed (st s n) <= k <= length (log (st s n)))%nat ->
+    step s (do_flush n k s).
 
 Inductive Reachable : state -> Prop :=
 | R_init : Reachable init
